@@ -617,6 +617,10 @@ func (propC09) Gen(seed uint64, tier string) *Case {
 		for i := 0; i < nf; i++ {
 			rec := genJob(r, g.paths, false)
 			rec.Frags = frags
+			if r.Chance(0.5) {
+				// the shared statement also sits inside a function body of this File
+				rec.Ops = append([]Op{{K: "add", Node: &Node{K: "func", S: fmt.Sprintf("V_9%d", i), B: []*Node{{K: "shared", I: r.Intn(len(frags))}, {K: "ret", N: []*Node{{K: "int", I: i}}}}}}}, rec.Ops...)
+			}
 			// place shared fragments before the first render
 			var ops []Op
 			placed := false
